@@ -6,9 +6,9 @@ def run(ctx):
     q = ctx.quick
     # 1. design level: exhaustive exploration of BFT.tla (4 validators, 1 Byzantine, E = 3)
     ctx.tlc_must_hold("bft", "MCBFT", cfg="MCBFT_quick.cfg" if q else "MCBFT_thorough.cfg",
-                      timeout=600 if q else 3000, heap="12g", label="exhaustive design model")
+                      timeout=600 if q else 3000, heap="8g", label="exhaustive design model")
     if not q:
-        ctx.tlc_must_hold("bft", "MCBFT", cfg="MCBFT_pos.cfg", timeout=1500, heap="12g", label="weighted (PoS) variant")
+        ctx.tlc_must_hold("bft", "MCBFT", cfg="MCBFT_pos.cfg", timeout=1500, heap="8g", label="weighted (PoS) variant")
     # 2. implementation -> model: traces of the real engine under honest, asynchronous, Byzantine, restart and
     #    threshold-boundary schedules
     bftcommon.binding_demo(ctx)
